@@ -489,7 +489,7 @@ var keywords = map[string]bool{
 	"func": true, "iface": true, "extern": true, "pure": true, "ghost": true, "props": true,
 	"requires": true, "domain": true, "ensures": true, "check": true, "hint": true, "onpanic": true, "panics": true, "returns": true, "modifies": true,
 	"assume": true, "invariant": true, "let": true, "loop": true, "nopanic": true,
-	"trusted": true, "inline": true, "nonblocking": true, "reveal": true, "rely": true, "guarantee": true, "unroll": true, "params": true, "noverify": true,
+	"trusted": true, "inline": true, "nonblocking": true, "merge": true, "reveal": true, "rely": true, "guarantee": true, "unroll": true, "params": true, "noverify": true,
 }
 
 func firstWord(s string) string {
@@ -588,6 +588,8 @@ func ParseSpecText(text, path, pkgPath string) (*SpecFile, error) {
 			cur.Reveal = append(cur.Reveal, strings.FieldsFunc(rest, func(r rune) bool { return r == ' ' || r == ',' })...)
 		case "nonblocking":
 			cur.Flags = append(cur.Flags, "nonblocking")
+		case "merge":
+			cur.Flags = append(cur.Flags, "merge")
 		case "trusted":
 			cur.Trusted = true
 		case "inline":
